@@ -57,6 +57,12 @@ def run(prog: Program, res: Result) -> None:
         # R5 what is submitted
         f0 = n.args[0] if n.args else None
         okm = isinstance(f0, ast.Attribute) and isinstance(f0.value, ast.Name) and f0.value.id == "self" and f0.attr in ALLOWED_SUBMITTED
+        if not okm and isinstance(f0, (ast.Name, ast.Starred)) and (
+                isinstance(f0, ast.Starred) or f0.id in fi.params or prog.resolve_name(fi.module, f0.id).kind in ("unknown", "var")):
+            # a callable handed in through a parameter / local: which method runs in the worker is not decided here
+            res.errors.append(f"{loc}: submitted callable `{norm(f0)}` is a parameter or local of {fi.qualname}; the worker's "
+                              f"method cannot be identified (undecided)")
+            continue
         res.ob(okm, f"{loc} {norm(n, 90)}", key)
         if not okm:
             res.add(Finding(P, "C11.R5-submitted-callable", key, loc,
